@@ -176,7 +176,7 @@ Definition acc0 : acc := {| defs := []; paths := []; files := []; extras := [] |
 Inductive outcome :=
   | Parsed (a : acc)           (* parse_known_args returned *)
   | ArgError (a : acc)         (* ArgumentError raised; [a] = what the namespace held *)
-  | Exit.                      (* parser.error -> SystemExit(2) *)
+  | Exit.                      (* the original parser.error -> SystemExit(2) *)
 
 Definition on_acc (f : acc -> acc) (o : outcome) : outcome :=
   match o with Parsed a => Parsed (f a) | ArgError a => ArgError (f a) | Exit => Exit end.
@@ -228,9 +228,10 @@ Fixpoint run (pos : posst) (pend : option optdef) (toks : list (string * cls)) :
       end
   end.
 
-Definition parse_known_args (tbl : list optdef) (argv : list string) : outcome :=
+(* [error_raises]: parser.error raises ArgumentError (before any action ran) instead of exiting *)
+Definition parse_known_args (tbl : list optdef) (error_raises : bool) (argv : list string) : outcome :=
   match classify (optmap_of tbl) false argv with
-  | inl SystemExit => Exit
+  | inl SystemExit => if error_raises then ArgError acc0 else Exit
   | inr toks => run PAvail None toks
   end.
 
@@ -241,15 +242,15 @@ Inductive result :=
   | RRaise                     (* ArgumentError propagates *)
   | RExit.                     (* SystemExit(2) propagates *)
 
-Definition parse_args_with (tbl : list optdef) (caught : bool) (argv : list string) : result :=
-  match parse_known_args tbl argv with
+Definition parse_args_with (tbl : list optdef) (caught error_raises : bool) (argv : list string) : result :=
+  match parse_known_args tbl error_raises argv with
   | Parsed a => ROk a
   | ArgError a => if caught then RWarned a else RRaise
   | Exit => RExit
   end.
 
 Definition parse_args (argv : list string) : result :=
-  parse_args_with c11_options c11_argerror_caught argv.
+  parse_args_with c11_options c11_argerror_caught c11_error_raises argv.
 
 (* the three lists of the returned configuration *)
 Definition lists_of (r : result) : option (list value * list value * list value) :=
